@@ -11,7 +11,8 @@ namespace Pasfmt
 
 /-- the lines of one pass are what the machine makes of the pass's trace -/
 def PassOK (kinds0 : List RawKind) (lines : List PLine) (pt : List Nat × List POp) : Prop :=
-  ∃ s, MState.init.run kinds0 pt.1 pt.2 = some s ∧ s.lines = lines
+  ∃ s, MState.init.run kinds0 pt.1 pt.2 = some s ∧ s.lines = lines ∧ pt.1.length ≤ s.passIdx ∧
+    ∀ j ∈ skippedRun kinds0 pt.1 MState.init pt.2, ∃ tok, pt.1[j]? = some tok ∧ kinds0[tok]? = some .rCompilerDirective
 
 theorem all2_reverse {α β : Type} {R : α → β → Prop} {as : List α} {bs : List β} (h : All2 R as bs) :
     All2 R as.reverse bs.reverse := by
@@ -44,13 +45,13 @@ theorem runPasses_ok (kinds0 : List RawKind) (nl : Array Bool) (fuel : Nat) :
     · rename_i s hs
       split at h
       · rename_i hg
-        obtain ⟨hk, hp⟩ := hg
+        obtain ⟨hk, hp, hdone⟩ := hg
         subst hk
         subst hp
         split at h
         · simp at h
         · rename_i kinds2 hc
-          have hok : PassOK s.kinds0 s.m.lines (s.pass, s.trace.reverse) := ⟨s.m, s.mt.ok, rfl⟩
+          have hok : PassOK s.kinds0 s.m.lines (s.pass, s.trace.reverse) := ⟨s.m, s.mt.ok, rfl, hdone, s.mt.skipOk⟩
           obtain ⟨r1, r2⟩ := runPasses_ok s.kinds0 nl fuel rest kinds2 (s.m.lines :: ls) ((s.pass, s.trace.reverse) :: trs)
             kinds' L T (.cons hok hacc) h
           refine ⟨r1, ?_⟩
@@ -59,11 +60,15 @@ theorem runPasses_ok (kinds0 : List RawKind) (nl : Array Bool) (fuel : Nat) :
       · simp at h
 
 open PFull in
-/-- **The parser model builds its lines through the machine only.**  For every input on which the model answers:
-    the passes are the conditional-directive passes of the file, and the lines of every pass are exactly what the
-    primitive machine makes of the trace the control flow issued in that pass. -/
-theorem parseFileFull_passes (toks : List (RawKind × Bool)) (o : ParseFullOut) (h : parseFileFull toks = some o) :
-    All2 (PassOK (toks.map (·.1))) o.passLines o.traces ∧ o.traces.map (·.1) = passes (toks.map (·.1)) := by
+/-- what an answer of `parseFileFull` consists of -/
+theorem parseFileFull_spec (toks : List (RawKind × Bool)) (o : ParseFullOut) (h : parseFileFull toks = some o) :
+    ∃ (kinds : Array RawKind) (acc : List PLine),
+      runPasses (toks.map (·.1)) ((toks.map (·.2)).toArray) (200 * (toks.length + 10)) (passes (toks.map (·.1)))
+        (toks.map (·.1)).toArray [] [] = some (kinds, o.passLines, o.traces) ∧
+      consolidateAll [] o.passLines = some acc ∧
+      dirKindsKept (toks.map (·.1)) kinds.toList = true ∧
+      o.kinds = kinds.toList ∧
+      consolidatePass acc (directiveLinesGo (attributedOf kinds.toList o.passLines) 0 kinds.toList.zipIdx) = some o.lines := by
   unfold parseFileFull at h
   simp only at h
   split at h
@@ -71,11 +76,27 @@ theorem parseFileFull_passes (toks : List (RawKind × Bool)) (o : ParseFullOut) 
   · rename_i kinds passLines traces hr
     split at h
     · simp at h
-    · split at h
+    · rename_i acc hacc
+      split at h
       · simp at h
-      · simp only [Option.some.injEq] at h
-        subst h
-        have := runPasses_ok _ _ _ _ _ _ _ _ _ _ All2.nil hr
-        simpa using this
+      · rename_i hk
+        split at h
+        · simp at h
+        · rename_i lines hl
+          simp only [Option.some.injEq] at h
+          subst h
+          refine ⟨kinds, acc, hr, hacc, ?_, rfl, hl⟩
+          simpa using hk
+
+open PFull in
+/-- **The parser model builds its lines through the machine only.**  For every input on which the model answers:
+    the passes are the conditional-directive passes of the file, and the lines of every pass are exactly what the
+    primitive machine makes of the trace the control flow issued in that pass (which consumed the whole pass and
+    skipped nothing but compiler directives). -/
+theorem parseFileFull_passes (toks : List (RawKind × Bool)) (o : ParseFullOut) (h : parseFileFull toks = some o) :
+    All2 (PassOK (toks.map (·.1))) o.passLines o.traces ∧ o.traces.map (·.1) = passes (toks.map (·.1)) := by
+  obtain ⟨kinds, acc, hr, _, _, _, _⟩ := parseFileFull_spec toks o h
+  have := runPasses_ok _ _ _ _ _ _ _ _ _ _ All2.nil hr
+  simpa using this
 
 end Pasfmt
